@@ -108,6 +108,12 @@ def run_family(pid, tier, profile, n, length, mc_cfg, text_rule, extra_assumptio
             props = {pid}          # cannot attribute: report it here
             failing = failing or {"unattributed"}
         sig = "cache %s aspects=%s" % (ev, "+".join(sorted(failing)))
+        # the input class, where it identifies a recorded finding: a delete addressed to a leaf-accounting leaf below meta/
+        for dl in r.event.get("dels", []) or []:
+            dp = dl.get("p", [])
+            if len(dp) == 2 and dp[0] == "meta" and dp[1] in ("targetLeaves", "targetLeavesAdded", "targetLeavesDeleted"):
+                sig += " input=delete-at-meta/leaf-accounting"
+                break
         if pid in props:
             sc = scen.get(r.scenario[0].get("sc"), {})
             nops = len(r.scenario) - 1
